@@ -6,9 +6,10 @@
   tax/totals_calculator.go and tax/totals.go).  Helper lemmas:
   Proofs/CalcTax.lean.
 
-  Not proved here (exercised by the correspondence and the summary oracle):
-  the tax-sum identity `tax_sum` with surcharges under mixed exponents, and
-  `included_only_total_with_tax` as a theorem of the whole pipeline.
+  The currency-rule forms of the sums are in Props/C03.  Not proved: that the
+  rounded (presented) figures of `roundTax` are the half-away roundings of
+  these exact ones is immediate from `Props.C01.rescale_point`; the statement
+  for the whole `calculate` (glue through `taxTotal`) is exercised only.
 -/
 import GoblVerif.Spec.C02
 import GoblVerif.Proofs.CalcTax
@@ -66,6 +67,48 @@ theorem category_sum (r : Rule) (c : ℕ) (ct : CatTotal) :
     (catAmounts exactOps r c ct).amount.toRat =
       (((catAmounts exactOps r c ct).rates).map (taxedAmount r c)).sum :=
   catAmounts_amount r c ct
+
+/-- **tax_sum** (precise rule): for the categories the pipeline builds from any
+rows, the tax total is exactly the sum of the ordinary categories' amounts and
+surcharges minus the retained ones — no rounding happens in this sum. -/
+theorem tax_sum (r : Rule) (hr : r ≠ .currency) (c : ℕ) (rows : List Row) :
+    let cats := (baseRateTotals exactOps r c rows).map (catAmounts exactOps r c)
+    (finalSum exactOps r c cats).toRat = (cats.map catSignedQ).sum := by
+  intro cats
+  apply finalSum_toRat r hr c cats
+  intro ct hct
+  simp only [cats, List.mem_map] at hct
+  obtain ⟨ct0, _, rfl⟩ := hct
+  exact catAmounts_surcharge_exp_le r hr c ct0
+
+/-- **included_only_total_with_tax**: when prices include a tax and the tax
+total of the document is exactly the amount of that included category (no
+other category, no surcharge on it — every other tax would be added on top),
+taking the included tax out of the total and adding the tax total back cancels
+exactly, whatever the precisions involved: the total with tax is the gross
+sum − discounts + charges of the rows. -/
+theorem included_only_total_with_tax (d : Doc) (p : Pre) (tx : TaxTotal) (ti : Amount)
+    (hti : taxIncluded d.includes tx = some ti) (heq : ti.toRat = tx.precise.toRat) :
+    (rawTotals exactOps d p tx).totalWithTax = p.total2 := by
+  have h : (rawTotals exactOps d p tx).totalWithTax = add exactOps (sub exactOps p.total2 ti) tx.precise := by
+    simp only [rawTotals, hti]
+  rw [h]
+  unfold add sub
+  simp only [exact_rescale, rescaleX_value_congr ti tx.precise p.total2.exp heq]
+  cases p.total2
+  simp
+
+/-- the tax total of a summary with a single ordinary category without
+surcharge is that category's amount -/
+theorem single_category_sum (r : Rule) (c : ℕ) (ct : CatTotal) (hr : ct.retained = false)
+    (hs : ct.surcharge = none) (hc : r ≠ .currency) :
+    (finalSum exactOps r c [ct]).toRat = ct.amount.toRat := by
+  unfold finalSum
+  simp only [List.foldl_cons, List.foldl_nil, hr, hs, Bool.false_eq_true, if_false]
+  have hm : mrp r ⟨0, c⟩ ct.amount = up ⟨0, c⟩ ct.amount.exp := by
+    cases r <;> simp_all [mrp]
+  rw [hm, add_toRat _ _ (by rw [up_exp]; omega), up_toRat]
+  simp [Amount.toRat]
 
 /-- non-vacuity: two rows at 21 %, one at 10 %, one exempt -/
 example :
